@@ -1,6 +1,7 @@
 package mrtimeb
 
 import (
+	"bytes"
 	"context"
 	"encoding/json"
 	"fmt"
@@ -9,6 +10,7 @@ import (
 	"time"
 
 	"github.com/pilosa/pilosa"
+	"github.com/pilosa/pilosa/roaring"
 	"github.com/pilosa/pilosa/test"
 	"verif/harness/behav"
 )
@@ -97,26 +99,82 @@ func (e *c19Env) run(c *c19Case, res *behav.Result) (fails []c19Fail, q string, 
 		op := st.Str("op")
 		col := st.Int("col")
 		var pql string
+		via := st.Str("via")
+		concrete := c19Col(c.Layout, col)
 		switch op {
 		case "Set":
 			ts := hourTime(st.Int("t")).Add(time.Duration(behav.Hash64(fmt.Sprint(si, st.Int("t")))%60) * time.Minute)
-			pql = fmt.Sprintf("Set(%d, %s=%d, %s)", c19Col(c.Layout, col), field, c19Row, pqlTime(ts))
+			pql = fmt.Sprintf("Set(%d, %s=%d, %s)", concrete, field, c19Row, pqlTime(ts))
+			if via == "import" || via == "views" {
+				// the other write paths: an import with the timestamp (Field.Import), or a roaring import
+				// that names exactly the time views of the timestamp (API.ImportRoaring)
+				var err error
+				if via == "import" {
+					pql = fmt.Sprintf("Field.Import(row %d, col %d, %s)", c19Row, concrete, pqlTime(ts))
+					var fld *pilosa.Field
+					if fld, err = e.m.API.Field(ctx, e.index, field); err == nil {
+						err = fld.Import([]uint64{c19Row}, []uint64{concrete}, []*time.Time{&ts})
+					}
+				} else {
+					views := map[string][]byte{}
+					var names []string
+					for _, name := range pilosa.VerifTimeViewsByTime(pilosa.VerifTimeViewStandard, ts, pilosa.TimeQuantum(q)) {
+						var buf bytes.Buffer
+						if _, err = roaring.NewBitmap(c19Row*pilosa.ShardWidth + concrete%pilosa.ShardWidth).WriteTo(&buf); err != nil {
+							break
+						}
+						key := name[len(pilosa.VerifTimeViewStandard)+1:]
+						views[key] = buf.Bytes()
+						names = append(names, key)
+					}
+					pql = fmt.Sprintf("ImportRoaring(row %d, col %d, views %v)", c19Row, concrete, names)
+					if err == nil {
+						err = e.m.API.ImportRoaring(ctx, e.index, field, concrete/pilosa.ShardWidth, false, &pilosa.ImportRoaringRequest{Views: views})
+					}
+				}
+				hist += pql + "; "
+				if res != nil {
+					res.Cover("via/" + via)
+				}
+				if err != nil {
+					fail(si, op, "error", "step %d %s: %v", si, pql, err)
+					return fails, q, nsv, ""
+				}
+				pql = ""
+			}
+		case "Plain":
+			pql = ""
+			desc := fmt.Sprintf("Field.Import(row %d, col %d, no timestamp)", c19Row, concrete)
+			hist += desc + "; "
+			fld, err := e.m.API.Field(ctx, e.index, field)
+			if err == nil {
+				err = fld.Import([]uint64{c19Row}, []uint64{concrete}, nil)
+			}
+			if res != nil {
+				res.Cover("via/plain")
+			}
+			if err != nil {
+				fail(si, op, "error", "step %d %s: %v", si, desc, err)
+				return fails, q, nsv, ""
+			}
 		case "Clear":
 			pql = fmt.Sprintf("Clear(%d, %s=%d)", c19Col(c.Layout, col), field, c19Row)
 		default:
 			return fails, q, nsv, "unknown op " + op
 		}
-		hist += pql + "; "
 		if res != nil {
 			res.Cover("op/" + op)
 		}
-		r, err := query(e.m, e.index, pql)
-		if err != nil || len(r) != 1 {
-			fail(si, op, "error", "step %d %s: %v", si, pql, err)
-			return fails, q, nsv, ""
-		}
-		if got, _ := r[0].(bool); got != st.Bool("changed") {
-			fail(si, op, "changed_flag", "step %d %s returned %v, expected %v  [history: %s]", si, pql, got, st.Bool("changed"), hist)
+		if pql != "" {
+			hist += pql + "; "
+			r, err := query(e.m, e.index, pql)
+			if err != nil || len(r) != 1 {
+				fail(si, op, "error", "step %d %s: %v", si, pql, err)
+				return fails, q, nsv, ""
+			}
+			if got, _ := r[0].(bool); got != st.Bool("changed") {
+				fail(si, op, "changed_flag", "step %d %s returned %v, expected %v  [history: %s]", si, pql, got, st.Bool("changed"), hist)
+			}
 		}
 		obs := behav.ToMap(st["obs"])
 		// the standard view
